@@ -13,6 +13,82 @@ import (
 
 func init() {
 	core.Executors["dev"] = execDev
+	core.Executors["devm"] = execDevMulti
+}
+
+// case {kind:"devm", dkind: add|delete, prop: must|unique, have: [values the target states], vals: [values in
+// the one deviate block]}
+func execDevMulti(c core.Case) []core.Rec {
+	dkind := c["dkind"].(string)
+	prop := c["prop"].(string)
+	strs := func(v any) []string {
+		out := []string{}
+		if xs, ok := v.([]any); ok {
+			for _, x := range xs {
+				out = append(out, fmt.Sprint(x))
+			}
+		}
+		if xs, ok := v.([]string); ok {
+			out = append(out, xs...)
+		}
+		return out
+	}
+	have, vals := strs(c["have"]), strs(c["vals"])
+	p := DevProps[prop]
+	stmts := func(vs []string) string {
+		var sb strings.Builder
+		for _, v := range vs {
+			sb.WriteString(" " + p.Stmt(v))
+		}
+		return sb.String()
+	}
+	module := func(deviate string) string {
+		leafProp, listProp, target := "", "", "/c/t"
+		if p.Target == "leaf" {
+			leafProp = stmts(have)
+		} else {
+			listProp, target = stmts(have), "/c/tl"
+		}
+		dev := ""
+		if deviate != "" {
+			dev = fmt.Sprintf(" deviation %s { %s }\n", target, deviate)
+		}
+		return "module D {\n namespace \"urn:d\";\n prefix \"d\";\n revision 2024-01-01;\n container c {\n" +
+			"  leaf t { type string;" + leafProp + " }\n  leaf sib { type string; }\n" +
+			"  list tl { key \"k\"; leaf k { type string; } leaf u1 { type string; } leaf u2 { type string; } leaf u3 { type string; } leaf u4 { type string; }" + listProp + " }\n }\n" + dev + "}"
+	}
+	res := core.Rec{"panic": false, "err": false, "msg": ""}
+	rec := core.Rec{"chk": "devm", "kind": dkind, "prop": prop, "have": have, "vals": vals, "res": res, "got": []string{},
+		"sig": core.Rec{"kind": dkind, "prop": prop, "nhave": len(have), "nvals": len(vals)}}
+	func() {
+		defer func() {
+			if r := recover(); r != nil {
+				res["panic"] = true
+				res["msg"] = fmt.Sprint(r)
+			}
+		}()
+		if _, err := parser.LoadModuleFromString(MemOpener(nil), module("")); err != nil {
+			res["msg"] = "harness: base module does not load: " + err.Error()
+			rec["chk"] = "skip"
+			return
+		}
+		m, err := parser.LoadModuleFromString(MemOpener(nil), module(fmt.Sprintf("deviate %s {%s }", dkind, stmts(vals))))
+		if err != nil {
+			res["err"] = true
+			res["msg"] = err.Error()
+			return
+		}
+		target := "t"
+		if p.Target == "list" {
+			target = "tl"
+		}
+		got := []string{}
+		if v := snapshot(m)[target][prop]; v != "" {
+			got = strings.Split(v, "|")
+		}
+		rec["got"] = got
+	}()
+	return []core.Rec{rec}
 }
 
 // devProps: property -> (statement text for a value, target kind)
